@@ -123,7 +123,13 @@ def mutate(rng, a):
         other = copy.deepcopy(twin)
         if op == "reuse-id-children": other["args"] = [{"c": "str", "id": "u"}, {"c": "str", "id": "ww"}]
         elif op == "reuse-id-value": other["v"] = 2
-        else: other["sign"] = -1
+        else:
+            other["sign"] = -1
+            if rng.random() < 0.5:
+                # … over children whose bounds are symmetric around zero, so that the two signed sums have the same range
+                kids = rng.choice([[leaf("u", -2, 2)], [leaf("u", -1, 0), leaf("w", 0, 1)], [leaf("u", -3, 3), leaf("w", -1, 1)]])
+                v = rng.choice([0, 1, -1, 2])
+                twin["args"] = copy.deepcopy(kids); other["args"] = copy.deepcopy(kids); twin["v"] = other["v"] = v
         a = {"c": "All", "args": [a, {"c": "Any", "args": [twin, {"c": "str", "id": "zz"}]}, {"c": "Any", "args": [other, {"c": "str", "id": "zy"}]}]}
     elif op == "generated-id-coincidence":
         # two compounds WITHOUT explicit ids whose generated ids coincide (the digest is taken over the child ids
